@@ -137,7 +137,9 @@ class Check:
             path = self.write_replay(kind, body, key)
             rc, out = self.run_script(path)
             fid = classify(c)
-            if rc == 1:
+            if rc == 1 and "VIOLATED" not in out:
+                self.harness_error("replay script %s exited 1 without a verdict line: %s" % (path, out[-300:]))
+            elif rc == 1:
                 openids = {f["id"] for f in self.open_findings()}
                 if fid is not None and fid in openids:
                     self.known_seen.append({"finding": fid, "input": c.get("input"), "replay": path})
